@@ -74,6 +74,18 @@ CHECKS = {
         design_ref="DESIGN.md 5 C20",
         note=NOTE_COMMON + " float32 positions are mapped to rationals with denominator <= 1024 (inexact cases skipped and counted); probe comparison tolerance 2e-5.",
     ),
+    "C19": dict(
+        text=("TLC enumerates EnsembleModel: every ensemble shape of rank 1-2 (axis length <= 4, thorough 5) with every chunking "
+              "(all compositions of each axis length) and checks that the chunk_ranges-based split satisfies Ensemble.tla and "
+              "reassembles to the identity.  Every enumerated (shape, chunking) is applied to 18 real ensemble kinds (Line/Grid/"
+              "Custom scans with endpoint variants, distributions via divide and via Aperture/CTF transforms, FrozenPhonons "
+              "seeds, AtomsEnsemble, Waves/Images with ordinal, linear, positions and frozen-phonon axes, eager and lazy) both "
+              "through generate_blocks and ensemble_blocks().compute(); EnsembleTrace.tla decides that each block holds exactly "
+              "the members its chunk range selects, in order, each block index once, slices = ranges, lazy = eager."),
+        technique="TLA+ partition model (TLC) + TLC-enumerated chunkings executed on the real ensemble classes + TLC trace validation",
+        design_ref="DESIGN.md 5 C19",
+        note=NOTE_COMMON + " Member identities are interned values (positions rounded to 1e-5, values+weights, seeds, array fill ids + axis values).",
+    ),
 }
 
 NOT_APPLICABLE = {
